@@ -22,6 +22,7 @@ FAMILIES = [
     ("badline", 2, [1, 2, 3], "csv"),
     ("writerfail", 2, [1, 2, 3], "dkvp"),
     ("twofaults", 2, [1, 2, 3], "csv"),
+    ("manyfaults", 2, [1, 2, 3], "csv"),
 ]
 
 
@@ -78,6 +79,16 @@ def run(tier, seed):
                             "result": r.violated or "no error"})
     if r.violated:
         design_violations.append(("verbfail-liveness", r.violated))
+
+    # sensitivity of the model: if main stopped listening after the first error (a design the code does not have), three
+    # input-side errors must leave the reader blocked on its error post -- TLC must find that deadlock
+    r = pipeline.run_mc("manyfaults", 1, [1], first_error_only=True, timeout=900)
+    cov["tlc_runs"].append({"module": "MCPipeline", "family": "manyfaults", "first_error_only": True, "distinct_states": r.distinct,
+                            "result": r.violated or "no error", "expected": "deadlock"})
+    if r.violated != "deadlock":
+        raise vlib.Inconclusive("self-test failed: a main that stops listening after the first error did not deadlock in the model")
+    states += r.distinct
+    transitions += r.generated
 
     # ---- 2. every fault configuration on the real binary (B3) -----------------------------------
     runs = []
